@@ -265,6 +265,13 @@ func (tr *upTransport) RoundTrip(req *http.Request) (resp *http.Response, err er
 			rb = []byte("scripted refusal\n")
 		}
 	}
+	if p.Status/100 != 2 && p.RespBody == "stall" && p.CancelAtNS > 0 {
+		// an error answer whose text stalls after three bytes; the caller gives
+		// up some time later (the cancellation is what ends the body's Read)
+		h.Set("Content-Type", "text/plain; charset=utf-8")
+		return &http.Response{Status: fmt.Sprintf("%d %s", p.Status, http.StatusText(p.Status)), StatusCode: p.Status, Proto: "HTTP/1.1", ProtoMajor: 1, ProtoMinor: 1,
+			Header: h, Body: &lazyBody{ctx: ctx, mode: "stall", data: []byte("0123456789"), log: tr.log}, ContentLength: 10, Request: req}, nil
+	}
 	if p.Status/100 == 2 && p.RespBody != "" && p.Status != 204 {
 		// a success whose (useless) body does not arrive in one piece: the
 		// answer is there, the upload is over, nothing in the body matters
@@ -561,7 +568,7 @@ func ExecuteUpload(t *testing.T, plan *Plan, opts Opts) *RunResult {
 				add("close-result", fmt.Sprintf("the server answered %d but Close returned nil", tr.status))
 			} else if !errors.As(cerr, &he) || he.Code != tr.status {
 				add("close-result", fmt.Sprintf("the server answered %d; Close returned %q, which does not carry that status", tr.status, cerr))
-			} else if p.DAVError && tr.status >= 400 && p.Server == "script" && !strings.Contains(cerr.Error(), "lock-token-submitted") {
+			} else if p.DAVError && tr.status >= 400 && p.Server == "script" && !(p.RespBody == "stall" && p.CancelAtNS > 0) && !strings.Contains(cerr.Error(), "lock-token-submitted") {
 				add("close-result", fmt.Sprintf("the server answered %d with a DAV:error body; Close returned %q, which lost the condition element", tr.status, cerr))
 			}
 		default:
@@ -766,6 +773,8 @@ func GenC18Upload(seed uint64, tier string) *Plan {
 		p.AnswerDelayNS = rt.Pick(r, []int64{0, 1, 1e6, 1e9, 60e9})
 		if p.Status/100 == 2 && p.Action == "answer" && r.Chance(0.3) {
 			p.RespBody = rt.Pick(r, []string{"stall", "stall", "slow", "reset"})
+		} else if p.Status/100 != 2 && p.Action == "answer" && r.Chance(0.15) {
+			p.RespBody = "stall" // takes effect only when a cancellation is planned as well
 		}
 		p.OwnCtx = r.Chance(0.3)
 	}
